@@ -2,6 +2,7 @@ package main
 
 import (
 	"fmt"
+	"go/token"
 	"go/types"
 	"regexp"
 	"sort"
@@ -133,6 +134,13 @@ func (en *Engine) verifyFunc(fn *ssa.Function, ct *FuncContract, findings ...*Fi
 		v := f.freshVal("p "+p.Name(), p.Type(), h0)
 		f.params = append(f.params, v)
 		f.env[p] = v
+	}
+	if fn.Synthetic != "" && fn.Name() == "init" && fn.Pkg != nil {
+		// the package initializer runs once: its guard is false on entry (Go spec, package initialization)
+		if g, ok := fn.Pkg.Members["init$guard"].(*ssa.Global); ok {
+			gv := f.load(f.val(g), h0, "true", token.NoPos)
+			vc.assume(not(gv.E))
+		}
 	}
 	f.entry = h0.clone()
 	ctx := f.specCtx(f.entry, nil)
